@@ -106,6 +106,7 @@ POSITIONS = [
     ('P9v', 'link_options-multi-output', 'flags-var'),
     ('P17y', 'generator-option-multi-output', 'flags-var'),
     ('P17g', 'generator-global-option', 'flags-var'),
+    ('P17o', 'generator-option-single-output', 'flags-var'),
     ('P15y', 'env-YFLAGS', 'flags-var'),
     ('P11a', 'global_link_options-list', 'flags-var'),
     ('P11s', 'global_link_options-string', 'flags-var'),
@@ -178,9 +179,20 @@ def render(src, v, shape):
         "global_options(['-Xpreprocessor', {}], lang='c')".format(
             r('-DG10X=' + v['P10x'])),
         "global_options([{}], lang='yacc')".format(r('-DG17G=' + v['P17g'])),
+    ] + ([
         "global_link_options([{}])".format(r('-Wl,--g11a=' + v['P11a'])),
         "global_link_options({})".format(
             r(strquote('-Wl,--g11s=' + v['P11s']))),
+    ] if shape.get('link_globals', True) else [
+        # no global link flags at all, and the first link step declared has
+        # no options of its own
+        "bare = executable('bare', ['main2.c'])",
+    ]) + ([
+        # a grammar with one explicitly named output, declared before or
+        # after the two-output one
+        "gram1 = generated_source('one.c', 'gram1.y', options=[{}])".format(
+            r('-DY17O=' + v['P17o'])),
+    ] if shape.get('yacc_one_first', True) else []) + [
         "inc = header_directory({})".format(r(v['P13i'] + '/')),
         "libd = directory({})".format(r(v['P13l'] + '/')),
         "slib = static_library('slib', ['lib.c'])",
@@ -198,6 +210,10 @@ def render(src, v, shape):
             r('-DC7V=' + v['P7v']), r('-Wl,--l9v=' + v['P9v'])),
         "gram = generated_source(file='gram.y', options=[{}])".format(
             r('-DY17=' + v['P17y'])),
+    ] + ([
+        "gram1 = generated_source('one.c', 'gram1.y', options=[{}])".format(
+            r('-DY17O=' + v['P17o'])),
+    ] if not shape.get('yacc_one_first', True) else []) + [
         "vprog2 = executable('prog2', ['main2.c'], compile_options={}, "
         "link_options={})".format(
             r(strquote('-DC8A=' + v['P8a']) + ' ' +
@@ -218,7 +234,8 @@ def render(src, v, shape):
         "command('p14', cmd=['rec', 'P14', command.input], files=[{}])"
         .format(r(v['P14f'] + '.in')),
         "install(executable('iprog', ['main2.c']))",
-        "default(vprog, vprog2, vshl, gram)",
+        "default(vprog, vprog2, vshl, gram, gram1{})".format(
+            '' if shape.get('link_globals', True) else ', bare'),
         "test(['rec', 'P5', {}], environment={{'VFENV4': {}}})".format(
             r(v['P5w']), r(v['P5e'])),
         "drv = test_driver(['drv', 'P6', {}], environment={{'VFENV5': {}}}, "
@@ -229,15 +246,16 @@ def render(src, v, shape):
         "test([{}], driver=drv)".format(r(v['P6c2'])),
     ]
     sandbox.write_file(os.path.join(src, 'build.bfg'), '\n'.join(lines) + '\n')
-    for f in ('main.c', 'main2.c', 'lib.c', 'shl.c', 'vshl.c', 'gram.y'):
+    for f in ('main.c', 'main2.c', 'lib.c', 'shl.c', 'vshl.c', 'gram.y',
+              'gram1.y'):
         sandbox.write_file(os.path.join(src, f), 'int x;\n')
     os.makedirs(os.path.join(src, v['P13i']), exist_ok=True)
     os.makedirs(os.path.join(src, v['P13l']), exist_ok=True)
     sandbox.write_file(os.path.join(src, v['P14f'] + '.in'), 'x\n')
 
 
-def configure_env(v):
-    return {
+def configure_env(v, shape=None):
+    env = {
         'CC': 'cc', 'YACC': 'yacc',
         'YFLAGS': strquote('-DE15Y=' + v['P15y']),
         # (the word -Xpreprocessor is also given by global_options())
@@ -247,6 +265,9 @@ def configure_env(v):
         'LDFLAGS': strquote('-Wl,--e15l=' + v['P15l']),
         'LDLIBS': strquote('-le15b' + v['P15b']),
     }
+    if shape is not None and not shape.get('link_globals', True):
+        del env['LDFLAGS'], env['LDLIBS']
+    return env
 
 
 TARGETS = ['p1', 'p2', 'p3', 'p3s', 'p4.out', 'p14', 'prog', 'all', 'test',
@@ -261,7 +282,7 @@ def run_template(backend, v, shape, tmp):
     os.makedirs(src)
     render(src, v, shape)
     env = sandbox.base_env(os.path.join(tmp, 'home'), stub=True,
-                           extra=configure_env(v))
+                           extra=configure_env(v, shape))
     status = {}
     r = sandbox.configure(src, bld, env, backend=backend,
                           extra=['--enable-static', '--enable-shared',
@@ -318,6 +339,12 @@ def placeholders_in(s):
 _baseline_cache = {}
 
 
+def inactive(shape):
+    """Positions the template does not contain in this shape."""
+    return set() if shape.get('link_globals', True) else set(GLOBAL_LINK)
+
+
+
 def baseline(backend, shape):
     key = (backend, json.dumps(shape, sort_keys=True))
     if key not in _baseline_cache:
@@ -337,7 +364,9 @@ def baseline(backend, shape):
                 for val in inv['env'].values():
                     seen.update(placeholders_in(val))
         _baseline_cache[key] = logs
-        _baseline_missing[key] = [p for p in BASELINE_VALUES if p not in seen]
+        _baseline_missing[key] = [p for p in BASELINE_VALUES
+                                  if p not in seen and
+                                  p not in inactive(shape)]
     return _baseline_cache[key]
 
 
@@ -491,6 +520,7 @@ OWNERS = {
     'libvshl.int/vshl.o': GLOBAL_COMPILE | {'P7v'},
     'libvshl.so.1.2.3': GLOBAL_LINK | {'P9v'},
     './gram.tab.c': {'P15y', 'P17g', 'P17y'},
+    './one.c': {'P15y', 'P17g', 'P17o'},
     'prog2.int/main2.o': GLOBAL_COMPILE | {'P8a', 'P8b'},
     'libslib.int/lib.o': GLOBAL_COMPILE,
     'libshl.int/shl.o': GLOBAL_COMPILE,
@@ -510,7 +540,8 @@ WORDS = {out: {'-Xpreprocessor': 2} for out in
          ('prog2.int/main2.o', 'libslib.int/lib.o', 'libshl.int/shl.o',
           'iprog.int/main2.o', 'libvshl.int/vshl.o')}
 WORDS['prog.int/main.o'] = {'-Xpreprocessor': 3}
-WORDS['./gram.tab.c'] = {'--defines=gram.tab.h': 1}
+WORDS['./gram.tab.c'] = {'--defines=gram.tab.h': 1, './gram.tab.c': 1}
+WORDS['./one.c'] = {'./one.c': 1}
 
 
 def ownership_violation(backend, shape):
@@ -528,6 +559,9 @@ def ownership_violation(backend, shape):
         for inv in logs[t]:
             if inv['tool'] not in ('cc', 'yacc') or '-o' not in inv['argv']:
                 continue
+            if inv['argv'][-1] == '-o':
+                return ('{} was started with `-o` as its last argument (no '
+                        'output name): {!r}'.format(inv['tool'], inv['argv']))
             out = inv['argv'][inv['argv'].index('-o') + 1]
             seen_outputs.add(out)
             if out not in OWNERS:
@@ -548,7 +582,7 @@ def ownership_violation(backend, shape):
                             '(globally and/or per target) (argv {!r})'.format(
                                 out, w, inv['argv'].count(w), n, inv['argv']))
             have = {p for a in inv['argv'] for p in placeholders_in(a)}
-            if have != OWNERS[out]:
+            if have != OWNERS[out] - inactive(shape):
                 return ('step producing {!r} received the options of '
                         'positions {} but the script gives it {} (argv {!r})'
                         .format(out, sorted(have), sorted(OWNERS[out]),
@@ -646,7 +680,9 @@ def cases(draw):
     if values['P6c2'] == '':
         values['P6c2'] = 'c2'       # a test needs a command
     return {'values': values,
-            'shape': {'wrap_children': draw(st.booleans())}}
+            'shape': {'wrap_children': draw(st.booleans()),
+                      'link_globals': draw(st.integers(0, 3)) > 0,
+                      'yacc_one_first': draw(st.booleans())}}
 
 
 def make_prop(rec, backend):
